@@ -287,7 +287,7 @@ def mix_entry_configs(tier):
                              ('MultiStream', 'A', [('l', 'A'), ('g', 'B')]), ('MultiStream', 'B4', [('s', 'B'), ('gl', 'A')]),
                              ('MultiStream', 'A', [('lL', 'A')])]:
         add('sum', cls, inlets, pkg=pkg)
-    for case in ['views-of-receiver', 'one-view-of-receiver+x', 'views-of-other', 'receiver-is-view-of-inlet',
+    for case in ['only-view-of-receiver', 'views-of-receiver', 'one-view-of-receiver+x', 'views-of-other', 'receiver-is-view-of-inlet',
                  'receiver-is-view-of-inlet+x', 'proxy+x', 'flow_proxy+x', 'self+flow_proxy', 'multi:flow_proxy+s', 'multi:proxy+self']:
         add(case, 'gl' if ('view' in case and 'other' not in case) or case.startswith('multi') else 'l')
     return out
@@ -338,7 +338,11 @@ def gap_mix_entry(w, cfg):
             m, _ = _mk(w, 'm', 'l', 'A', 'two-maybe')
         _prime(m)
         x = lambda: inlet(9, 'l', 'B')
-        if case == 'views-of-receiver':
+        if case == 'only-view-of-receiver':
+            # one inlet: the copy shortcut of mix_from (taken whatever energy_balance says; no temperature solve is involved);
+            # the inlet is a row of the receiver itself (added after a round-4 side finding: the receiver came out empty)
+            recv, inlets = m, [m['l']]
+        elif case == 'views-of-receiver':
             recv, inlets = m, [m['l'], m['g']]
         elif case == 'one-view-of-receiver+x':
             recv, inlets = m, [m['g'], x()]
@@ -365,7 +369,7 @@ def gap_mix_entry(w, cfg):
         expected = {}
         for s in inlets: _add(expected, W.total_by_CAS(s))
         g_row_before = W.row_by_CAS(m, 'g') if case.startswith('receiver-is-view') else None
-        recv.mix_from(inlets, energy_balance=False)
+        recv.mix_from(inlets, energy_balance=(case == 'only-view-of-receiver'))
         if g_row_before is not None:
             after = W.row_by_CAS(m, 'g')
             w.ensure('the phase of the inlet that is not the receiver is unchanged',
